@@ -354,6 +354,45 @@ type c19Pending struct {
 	ip   string
 	port int
 	resp []byte
+	bye  []byte // initial-INVITE variant: the BYE of the dialog the late 200 establishes
+}
+
+// openInitial: an initial INVITE passes through the rotation to some member,
+// which answers 180 with a To-tag at once; its 200 is kept for later, and so is
+// the BYE of the dialog.
+func (r *c19Rig) openInitial() (*c19Pending, string) {
+	r.dialogN++
+	id := fmt.Sprintf("c19i%d", r.dialogN)
+	r.hub.drain()
+	req, err := ParseMessage(bufio.NewReader(strings.NewReader(fmt.Sprintf("INVITE sip:svc.test SIP/2.0\r\nVia: SIP/2.0/UDP 127.0.0.9:9;branch=z9hG4bKin%s\r\nFrom: <sip:a@a.example>;tag=f%s\r\nTo: <sip:b@b.example>\r\nCall-ID: %s\r\nCSeq: 1 INVITE\r\nContent-Length: 0\r\n\r\n", id, id, id))))
+	if err != nil {
+		return nil, "harness: " + err.Error()
+	}
+	r.proxy.HandleRawMessage(NewRawMessage("127.0.0.9", 9, &c19Barrier{ch: make(chan struct{}, 1)}, false, req))
+	if err := r.barrier(); err != nil {
+		return nil, err.Error()
+	}
+	for {
+		rx, ok := r.hub.waitOne(2 * time.Second)
+		if !ok {
+			return nil, ""
+		}
+		if rx.msg == nil || rx.closed || rx.ep == nil {
+			continue
+		}
+		p := &c19Pending{addr: fmt.Sprintf("%s:%d", rx.ep.ip, rx.ep.port), ip: rx.ep.ip, port: rx.ep.port}
+		ringing, err := ParseMessage(bufio.NewReader(bytes.NewReader(buildResponse(rx.msg, 180, "Ringing", "t"+id, ""))))
+		if err != nil {
+			return nil, "harness: " + err.Error()
+		}
+		r.proxy.HandleRawMessage(NewRawMessage(p.ip, p.port, &c19Barrier{ch: make(chan struct{}, 1)}, false, ringing))
+		if err := r.barrier(); err != nil {
+			return nil, err.Error()
+		}
+		p.resp = buildResponse(rx.msg, 200, "OK", "t"+id, "")
+		p.bye = []byte(fmt.Sprintf("BYE sip:svc.test SIP/2.0\r\nVia: SIP/2.0/UDP 127.0.0.9:9;branch=z9hG4bKby%s\r\nFrom: <sip:a@a.example>;tag=f%s\r\nTo: <sip:b@b.example>;tag=t%s\r\nCall-ID: %s\r\nCSeq: 2 BYE\r\nContent-Length: 0\r\n\r\n", id, id, id, id))
+		return p, ""
+	}
 }
 
 // openTransaction pins a dialog to the member at addr (its 200 to an INVITE
@@ -409,7 +448,33 @@ func (r *c19Rig) lateAnswer(p *c19Pending) string {
 		return err.Error()
 	}
 	if f := r.checkMembership(); f != "" {
-		return fmt.Sprintf("after the answer to a pending in-dialog transaction arrived from %s, which name resolution had removed in the meantime: %s", p.addr, f)
+		return fmt.Sprintf("after the answer to a pending transaction arrived from %s, which name resolution had removed in the meantime: %s", p.addr, f)
+	}
+	if want := r.expected(); p.bye != nil && len(want) > 0 {
+		// the dialog that 200 established belongs to no backend that is gone: its
+		// BYE reaches a backend name resolution knows
+		r.hub.drain()
+		bye, err := ParseMessage(bufio.NewReader(bytes.NewReader(p.bye)))
+		if err != nil {
+			return "harness: " + err.Error()
+		}
+		r.proxy.HandleRawMessage(NewRawMessage("127.0.0.9", 9, &c19Barrier{ch: make(chan struct{}, 1)}, false, bye))
+		if err := r.barrier(); err != nil {
+			return err.Error()
+		}
+		for {
+			rx, ok := r.hub.waitOne(3 * time.Second)
+			if !ok {
+				return fmt.Sprintf("an INVITE went to %s, which answered 180; name resolution then removed that address; its 200 arrived afterwards; the BYE of that dialog reached no backend within 3 s although the rotation holds %v", p.addr, want)
+			}
+			if rx.msg == nil || rx.closed || rx.ep == nil {
+				continue
+			}
+			if at := fmt.Sprintf("%s:%d", rx.ep.ip, rx.ep.port); !inStrs(at, want) {
+				return fmt.Sprintf("the BYE of a dialog whose 200 came from the removed address %s was sent to %s; the rotation holds %v", p.addr, at, want)
+			}
+			break
+		}
 	}
 	return ""
 }
@@ -633,7 +698,16 @@ func TestC19(t *testing.T) {
 			}
 			if want := rig.expected(); pending == nil && len(want) > 0 && rapid.IntRange(0, 4).Draw(rt, "a transaction stays pending at one member") == 0 {
 				x := want[rapid.IntRange(0, len(want)-1).Draw(rt, "which member")]
-				p, f := rig.openTransaction(x)
+				var p *c19Pending
+				var f string
+				if rapid.Bool().Draw(rt, "an initial INVITE answered 180 (rather than a re-INVITE of a pinned dialog)") {
+					p, f = rig.openInitial()
+					if p != nil {
+						x = p.addr
+					}
+				} else {
+					p, f = rig.openTransaction(x)
+				}
 				if f != "" {
 					failf(rt, "after step %d of %v: %s", i+1, desc, f)
 				}
